@@ -401,8 +401,13 @@ func (r *x02Run) appRead(step int, local bool, i int) (units int, eof bool) {
 	}
 	data, eof, err := x02ReadNow(c)
 	if err != nil {
-		// a reset where the model has EOF or data: the relay end was failed, not closed
+		// a reset where the model has EOF or data: the link was failed (LocalReset), not closed
 		r.drift(step, "application read failed: %v (conn %d local=%v)", err, i, local)
+		if local {
+			w.eofDn[i] = true
+		} else {
+			w.eofUp[i] = true
+		}
 		return 0, false
 	}
 	if eof {
@@ -423,7 +428,10 @@ func (r *x02Run) appRead(step int, local bool, i int) (units int, eof bool) {
 		return 0, false
 	}
 	got := w.gotUp[i]
-	wrote := w.lwrote[i-1]
+	wrote := 0
+	if i >= 1 && i <= len(w.lwrote) {
+		wrote = w.lwrote[i-1]
+	}
 	if local {
 		got, wrote = w.gotDn[i], w.pwrote[i]
 	}
@@ -726,13 +734,24 @@ func (r *x02Run) restAfterDivergence(step int) {
 		}
 		synctest.Wait()
 		for i := range w.lapp {
-			if !w.lclosed[i] {
-				x02ReadNow(w.lapp[i])
+			if !w.lclosed[i] && !w.eofDn[i+1] {
+				r.appRead(step, true, i+1) // content is judged by its tags
 			}
 		}
-		for i, c := range w.papp {
-			if !w.pclosed[i] {
-				x02ReadNow(c)
+		// proxy connections the model does not know are read as well (by dial order they belong to nobody)
+		for n, l := range w.proxyn.Links() {
+			owner := 0
+			for i, pl := range w.plink {
+				if pl == l {
+					owner = i
+				}
+			}
+			if owner == 0 {
+				owner = 1000 + n
+				w.plink[owner], w.papp[owner] = l, l.End(1)
+			}
+			if !w.pclosed[owner] && !w.eofUp[owner] {
+				r.appRead(step, false, owner)
 			}
 		}
 		synctest.Wait()
@@ -898,11 +917,11 @@ func TestVerifX02Replay(t *testing.T) {
 	res := kit.NewResult()
 	defer func() { res.Save(true) }()
 	in := kit.Env("VERIF_IN", "")
-	for n := 0; n < 6000; n++ { // the generator may still be running: wait for the input
+	for n := 0; n < kit.EnvInt("X02_WAIT_S", 7200)*10; n++ { // the generator may still be running: wait for the input
 		if _, err := os.Stat(in + ".ready"); err == nil {
 			break
 		}
-		time.Sleep(50 * time.Millisecond)
+		time.Sleep(100 * time.Millisecond)
 	}
 	var progress atomic.Int64
 	go func() { // real-time watchdog (outside any bubble)
